@@ -12,7 +12,7 @@ group = sys.argv[1]
 tier = sys.argv[2] if len(sys.argv) > 2 else 'quick'
 big = tier == 'thorough'
 info = hot.analyse(core.REPO)
-os.environ['VERIF_HOT_SIZES'] = ','.join(str(x) for x in info['hot'][:4])
+os.environ['VERIF_HOT_SIZES'] = os.environ.get('SC18_HOT') or ','.join(str(x) for x in info['hot'][:4])
 os.environ['VERIF_SRC_CHANGED'] = '1' if info['changed_files'] else ''
 rng = random.Random(20260930)
 if group == 'corpus':
